@@ -81,7 +81,18 @@ RandOpts(x) == Opts(Pick(1..8), ~Coin(4, x), Pick(MinCols))
 RandFmts(x) == LET n == Pick(0..3) IN [k \in 1..n |-> Pick(1..Len(Formats))]
 RandCase(x) == MkCase("random", RandJournalN(x, MaxEntries), RandOpts(x), Pick({"file", "workspace", "workspace"}), RandFmts(x), Coin(3, x))
 
+(* every generated quoted commodity on either side of the number, as amount, cost and assertion of one transaction *)
+QuotedTx(k, side, neg) ==
+    LET a == [neg |-> neg, m |-> 5, sc |-> 0, n |-> "point", comm |-> Len(Commodities) + k, side |-> side, sp |-> TRUE, sgn |-> "before", plus |-> FALSE]
+    IN Tx(D(2024, 1, 15), Text(1), << [Post(3, <<a>>) EXCEPT !.cost = <<[total |-> FALSE, a |-> [a EXCEPT !.neg = FALSE]]>>],
+                                        [Post(1, <<a>>) EXCEPT !.asrt = <<[strict |-> FALSE, a |-> a]>>],
+                                        Post(2, <<>>) >>)
+FamQuoted(u) ==
+    { MkCase("quoted", << QuotedTx(k, side, neg) >>, Opts(4, TRUE, 0), "file", <<>>, FALSE) :
+        k \in 1..Len(CommoditiesGen), side \in {"L", "R"}, neg \in BOOLEAN }
+
 FamilySet(u) == CASE Family = "decimals" -> FamDecimals(0)
+                  [] Family = "quoted"   -> FamQuoted(0)
                   [] Family = "options"  -> FamOptions(0)
                   [] OTHER               -> {}
 
